@@ -144,16 +144,10 @@ def classify(res_rng, tgt_rng, det_shape3, tgt_shape3):
 
 
 def valid_why(res_rng, tgt_rng):
-    """Class of a *valid* pair (for narrow keys when it is wrongly rejected)."""
-    r4, t4 = list(res_rng)[-4:], list(tgt_rng)[-4:]
-    parts = []
-    if len(tgt_rng) == 6:
-        parts.append("3d-target-range")
-    elif len(res_rng) == 6:
-        parts.append("3d-result-range")
-    if list(res_rng)[-4:] != list(tgt_rng)[-4:] or (len(res_rng) == len(tgt_rng) == 6 and list(res_rng) != list(tgt_rng)):
-        parts.append("shifted-equal-extent")
-    return "+".join(parts) or "identical-ranges"
+    """Class of a *valid* pair (for narrow keys when it is wrongly rejected): are the two regions at different
+    positions, and is the target range given with 4 or 6 values."""
+    shifted = list(res_rng)[-4:] != list(tgt_rng)[-4:] or (len(res_rng) == len(tgt_rng) == 6 and list(res_rng) != list(tgt_rng))
+    return {"shifted": bool(shifted), "target_range_values": len(tgt_rng)}
 
 
 # ---------------------------------------------------------------- enumeration
@@ -227,6 +221,9 @@ def enumerate_cases(tier, seed):
                                           "npar": npar, "r3": "6+4"})
     cases.append({"fam": "run", "algo": "sade", "pygmo_seed": 1, "islands": 1, "ntargets": 1, "dims": 3, "func": FUNCS[0],
                   "sub": False, "npar": 2, "r3": "4+4"})
+    for dims in (2, 3):         # result and target regions of equal extent at different positions
+        cases.append({"fam": "run", "algo": "sade", "pygmo_seed": 2, "islands": 2, "ntargets": 2, "dims": dims,
+                      "func": FUNCS[1], "sub": "shifted", "npar": 2, "r3": "6+4"})
     return cases
 
 
@@ -391,7 +388,7 @@ def _run_problem(case, seed, td):
     # valid configuration
     if exc is not None:
         bad("valid-rejected", f"valid configuration rejected with {type(exc).__name__}: {str(exc)[:200]}",
-            why=valid_why(res, tgt), dims=3 if times else 2)
+            dims=3 if times else 2, **valid_why(res, tgt))
         return {"viol": viol, "sig": cfgx.sig(sig_base + [res, tgt, tshape, "rejected"]), "nontrivial": True, "n": 1,
                 "outcome": {"decision": "accept"}}
     if calls_at_construction:
@@ -446,6 +443,8 @@ def _run_optim(case, seed, td):
     nsteps = times or 1
     tshape = [3, ROWS, COLS] if times else [ROWS, COLS]
     res = tgt = [1, 4, 0, 4] if case["sub"] else [0, ROWS, 0, COLS]
+    if case["sub"] == "shifted":
+        res, tgt = [0, 2, 1, 4], [2, 4, 2, 5]
     if dims == 3 and case["r3"] == "6+4":
         res = [0, 3, *res]
     npar = int(case["npar"])
@@ -460,7 +459,15 @@ def _run_optim(case, seed, td):
         key.update(extra)
         viol.append((key, f"{label}: {what}"))
 
-    sig = cfgx.sig(["run", algo, case["pygmo_seed"], isl, ntargets, dims, func, npar, case["r3"]])
+    sig = cfgx.sig(["run", algo, case["pygmo_seed"], isl, ntargets, dims, func, npar, case["r3"], case["sub"]])
+    try:        # a valid configuration must be accepted
+        cal, proc, info = build(td, seed, res=res, tgt=tgt, tshape=tshape, times=times, func=func, ntargets=ntargets,
+                                weights="none", rtype=rtype, algo=algo, npar=npar, pygmo_seed=pygmo_seed)
+        calib.real_problem(cal, proc)
+    except Exception as e:  # noqa: BLE001
+        bad("valid-rejected", f"valid configuration rejected with {type(e).__name__}: {str(e)[:200]}",
+            dims=dims, **valid_why(res, tgt))
+        return {"viol": viol, "sig": sig, "nontrivial": True}
     try:
         cal, proc, info = build(td, seed, res=res, tgt=tgt, tshape=tshape, times=times, func=func, ntargets=ntargets,
                                 weights="none", rtype=rtype, algo=algo, npar=npar, pygmo_seed=pygmo_seed, num_islands=isl,
